@@ -1,0 +1,115 @@
+//go:build verif
+
+// Trusted contracts for the unsafe reinterpretation helpers (comment-only; compiled only with -tags verif).
+// Assumption recorded in every evidence file that uses them: 64-bit little-endian host; a slice
+// helper's result is a snapshot of the argument's bytes at the time of the call (the real result
+// aliases the argument's memory).
+
+package getbytes
+
+// lebyte(x, j): byte j (0 = least significant) of the two's-complement / unsigned value x.
+//@ pred lebyte(x int, j int) := ite(j == 0, x % 256, ite(j == 1, (x / 256) % 256, ite(j == 2, (x / 65536) % 256, ite(j == 3, (x / 16777216) % 256,
+//@        ite(j == 4, (x / 4294967296) % 256, ite(j == 5, (x / 1099511627776) % 256, ite(j == 6, (x / 281474976710656) % 256, (x / 72057594037927936) % 256)))))))
+// IEEE-754 bit patterns are uninterpreted (floats are idealised as reals elsewhere).
+//@ ufunc f32bits(x float32) int
+//@ ufunc f64bits(x float64) int
+
+//@ func FromUint8
+//@   trusted
+//@   ensures len(result) == 1 && result != nil && fresh(result)
+//@   ensures forall p int :: {at(result, p)} result.off <= p && p < result.off + 1 ==> at(result, p) == lebyte(d, p - result.off)
+
+//@ func FromUint16
+//@   trusted
+//@   ensures len(result) == 2 && result != nil && fresh(result)
+//@   ensures forall p int :: {at(result, p)} result.off <= p && p < result.off + 2 ==> at(result, p) == lebyte(d, p - result.off)
+
+//@ func FromUint32
+//@   trusted
+//@   ensures len(result) == 4 && result != nil && fresh(result)
+//@   ensures forall p int :: {at(result, p)} result.off <= p && p < result.off + 4 ==> at(result, p) == lebyte(d, p - result.off)
+
+//@ func FromUint64
+//@   trusted
+//@   ensures len(result) == 8 && result != nil && fresh(result)
+//@   ensures forall p int :: {at(result, p)} result.off <= p && p < result.off + 8 ==> at(result, p) == lebyte(d, p - result.off)
+
+//@ func FromInt8
+//@   trusted
+//@   ensures len(result) == 1 && result != nil && fresh(result)
+//@   ensures forall p int :: {at(result, p)} result.off <= p && p < result.off + 1 ==> at(result, p) == lebyte(d, p - result.off)
+
+//@ func FromInt16
+//@   trusted
+//@   ensures len(result) == 2 && result != nil && fresh(result)
+//@   ensures forall p int :: {at(result, p)} result.off <= p && p < result.off + 2 ==> at(result, p) == lebyte(d, p - result.off)
+
+//@ func FromInt32
+//@   trusted
+//@   ensures len(result) == 4 && result != nil && fresh(result)
+//@   ensures forall p int :: {at(result, p)} result.off <= p && p < result.off + 4 ==> at(result, p) == lebyte(d, p - result.off)
+
+//@ func FromInt64
+//@   trusted
+//@   ensures len(result) == 8 && result != nil && fresh(result)
+//@   ensures forall p int :: {at(result, p)} result.off <= p && p < result.off + 8 ==> at(result, p) == lebyte(d, p - result.off)
+
+//@ func FromFloat32
+//@   trusted
+//@   ensures len(result) == 4 && result != nil && fresh(result)
+//@   ensures forall p int :: {at(result, p)} result.off <= p && p < result.off + 4 ==> at(result, p) == lebyte(f32bits(d), p - result.off)
+
+//@ func FromFloat64
+//@   trusted
+//@   ensures len(result) == 8 && result != nil && fresh(result)
+//@   ensures forall p int :: {at(result, p)} result.off <= p && p < result.off + 8 ==> at(result, p) == lebyte(f64bits(d), p - result.off)
+
+//@ func FromSliceUint8
+//@   trusted
+//@   ensures len(result) == 1 * len(d) && (len(d) > 0 ==> result != nil)
+//@   ensures forall p int :: {at(result, p)} result.off <= p && p < result.off + len(result) ==> at(result, p) == lebyte(at(d, d.off + (p - result.off) / 1), (p - result.off) % 1)
+
+//@ func FromSliceUint16
+//@   trusted
+//@   ensures len(result) == 2 * len(d) && (len(d) > 0 ==> result != nil)
+//@   ensures forall p int :: {at(result, p)} result.off <= p && p < result.off + len(result) ==> at(result, p) == lebyte(at(d, d.off + (p - result.off) / 2), (p - result.off) % 2)
+
+//@ func FromSliceUint32
+//@   trusted
+//@   ensures len(result) == 4 * len(d) && (len(d) > 0 ==> result != nil)
+//@   ensures forall p int :: {at(result, p)} result.off <= p && p < result.off + len(result) ==> at(result, p) == lebyte(at(d, d.off + (p - result.off) / 4), (p - result.off) % 4)
+
+//@ func FromSliceUint64
+//@   trusted
+//@   ensures len(result) == 8 * len(d) && (len(d) > 0 ==> result != nil)
+//@   ensures forall p int :: {at(result, p)} result.off <= p && p < result.off + len(result) ==> at(result, p) == lebyte(at(d, d.off + (p - result.off) / 8), (p - result.off) % 8)
+
+//@ func FromSliceInt8
+//@   trusted
+//@   ensures len(result) == 1 * len(d) && (len(d) > 0 ==> result != nil)
+//@   ensures forall p int :: {at(result, p)} result.off <= p && p < result.off + len(result) ==> at(result, p) == lebyte(at(d, d.off + (p - result.off) / 1), (p - result.off) % 1)
+
+//@ func FromSliceInt16
+//@   trusted
+//@   ensures len(result) == 2 * len(d) && (len(d) > 0 ==> result != nil)
+//@   ensures forall p int :: {at(result, p)} result.off <= p && p < result.off + len(result) ==> at(result, p) == lebyte(at(d, d.off + (p - result.off) / 2), (p - result.off) % 2)
+
+//@ func FromSliceInt32
+//@   trusted
+//@   ensures len(result) == 4 * len(d) && (len(d) > 0 ==> result != nil)
+//@   ensures forall p int :: {at(result, p)} result.off <= p && p < result.off + len(result) ==> at(result, p) == lebyte(at(d, d.off + (p - result.off) / 4), (p - result.off) % 4)
+
+//@ func FromSliceInt64
+//@   trusted
+//@   ensures len(result) == 8 * len(d) && (len(d) > 0 ==> result != nil)
+//@   ensures forall p int :: {at(result, p)} result.off <= p && p < result.off + len(result) ==> at(result, p) == lebyte(at(d, d.off + (p - result.off) / 8), (p - result.off) % 8)
+
+//@ func FromSliceFloat32
+//@   trusted
+//@   ensures len(result) == 4 * len(d) && (len(d) > 0 ==> result != nil)
+//@   ensures forall p int :: {at(result, p)} result.off <= p && p < result.off + len(result) ==> at(result, p) == lebyte(f32bits(at(d, d.off + (p - result.off) / 4)), (p - result.off) % 4)
+
+//@ func FromSliceFloat64
+//@   trusted
+//@   ensures len(result) == 8 * len(d) && (len(d) > 0 ==> result != nil)
+//@   ensures forall p int :: {at(result, p)} result.off <= p && p < result.off + len(result) ==> at(result, p) == lebyte(f64bits(at(d, d.off + (p - result.off) / 8)), (p - result.off) % 8)
